@@ -614,3 +614,9 @@ mod tests {
         assert!(prod_push.is_push_production);
     }
 }
+
+// Verification harnesses over this module's private parser state (engine K of /verif);
+// compiled only by `cargo kani`.
+#[cfg(kani)]
+#[path = "/verif/kani/parol_runtime/lr_steps.rs"]
+mod verif_lr_steps;
